@@ -293,39 +293,59 @@ func runC12(d *RunDesc, res *RunResult) {
 						res.Stats.count("flt-no-invalid-value")
 						continue
 					}
-					// fresh copy, then the state fault
-					fr := guard(func() string {
-						c := doDecode(s.kind, false, s.vec)
-						if c.err != nil || isNilObj(c.res) {
-							return "skip"
+					// fresh copy, then the state fault.  Two variants: the fault hits a
+					// pristine object, or one that has already been queried and reported on
+					// (a fault at a later instant of the object's history).
+					var fr string
+					for _, warmed := range []bool{false, true} {
+						warmed := warmed
+						fr = guard(func() string {
+							c := doDecode(s.kind, false, s.vec)
+							if c.err != nil || isNilObj(c.res) {
+								return "skip"
+							}
+							if warmed {
+								_ = observeAll(c.res)
+								if rep, ok := newReport(c.res, 0); ok {
+									_ = snapshot(rep)
+								}
+								res.Stats.count("state-faults-after-queries")
+							}
+							fv, ok := fieldValue(c.res, f)
+							if !ok || !fv.CanSet() {
+								return "skip"
+							}
+							fv.Set(inv)
+							res.Stats.count("state-faults")
+							when := ""
+							if warmed {
+								when = " after the object had been queried"
+							}
+							what := fmt.Sprintf("%s decoded from %s with field %s reset to its invalid value%s", kindNames[s.kind], strconv.Quote(clip(s.vec, 200)), f.name, when)
+							cc.noPanicAll(c.res, "faulted:"+f.name)
+							for _, l := range levelsOf(c.res) {
+								if l.via != "self" {
+									cc.noPanicAll(l.obj, "faulted:"+f.name+"."+l.via)
+								}
+								obliged := l.level >= f.level
+								if v2 && f.level == 1 && !s.hasTemp {
+									obliged = false
+								}
+								if v2 && f.level == 2 && !s.hasEnv {
+									obliged = false
+								}
+								if obliged {
+									cc.mustBeInvalid(l.obj, kindOf(l.obj), what+", queried through "+l.via)
+									res.Stats.count("state-faults-obliging")
+									cc.caseKey(fmt.Sprintf("flt|%s|%s|%s|%v", kindNames[s.kind], f.name, l.via, warmed))
+								}
+							}
+							return ""
+						})
+						if isPanic(fr) {
+							break
 						}
-						fv, ok := fieldValue(c.res, f)
-						if !ok || !fv.CanSet() {
-							return "skip"
-						}
-						fv.Set(inv)
-						res.Stats.count("state-faults")
-						what := fmt.Sprintf("%s decoded from %s with field %s reset to its invalid value", kindNames[s.kind], strconv.Quote(clip(s.vec, 200)), f.name)
-						cc.noPanicAll(c.res, "faulted:"+f.name)
-						for _, l := range levelsOf(c.res) {
-							if l.via != "self" {
-								cc.noPanicAll(l.obj, "faulted:"+f.name+"."+l.via)
-							}
-							obliged := l.level >= f.level
-							if v2 && f.level == 1 && !s.hasTemp {
-								obliged = false
-							}
-							if v2 && f.level == 2 && !s.hasEnv {
-								obliged = false
-							}
-							if obliged {
-								cc.mustBeInvalid(l.obj, kindOf(l.obj), what+", queried through "+l.via)
-								res.Stats.count("state-faults-obliging")
-								cc.caseKey(fmt.Sprintf("flt|%s|%s|%s", kindNames[s.kind], f.name, l.via))
-							}
-						}
-						return ""
-					})
+					}
 					if isPanic(fr) {
 						res.addViolation("panic:fault:"+panicFrame(fr), fr, 0, i)
 					}
